@@ -59,6 +59,12 @@ def _section(c, sec):
         else:
             data["GB"] = ["g%d" % (1 if r % 2 == 0 else 2) for r in range(n)]
         pbk["group_by"] = ["GB"]
+        if c["kind"] == "null" and n >= 3:
+            # hierarchical group_by with nulls in two different groups separated by a null-free group
+            third = max(1, n // 3)
+            data["GB"] = ["g%d" % (1 if r < third else 2 if r < 2 * third else 3) for r in range(n)] if c["contig"] else data["GB"]
+            data["GB2"] = [None if (r < third or r >= 2 * third) else "u" for r in range(n)]
+            pbk["group_by"] = ["GB", "GB2"]
     for j in range(m):
         data["V%d" % j] = _cells(c["kind"], n, j, sec)
         types["V%d" % j] = {"int": pl.Int64, "float": pl.Float64}.get(c["kind"], pl.Utf8)
